@@ -411,7 +411,8 @@ func (h *stHarness) exec(line string) string {
 		}
 		// a call made with a context derived from another intercepted call (it already carries that call's messages)
 		other := &vMsg{Key: "other"}
-		ctx2 := context.WithValue(ctx, gcpKey, &gcpContext{reqMsg: other, replyMsg: other})
+		outer := &gcpContext{reqMsg: other, replyMsg: other}
+		ctx2 := context.WithValue(ctx, gcpKey, outer)
 		err = GCPUnaryClientInterceptor(ctx2, "/svc/u", req, reply, nil, func(c context.Context, method string, rq, rp interface{}, cc *grpc.ClientConn, o ...grpc.CallOption) error {
 			g, has := c.Value(gcpKey).(*gcpContext)
 			if !has || g.reqMsg != interface{}(req) || g.replyMsg != interface{}(reply) || c.Value(k{}) != "v" {
@@ -420,6 +421,10 @@ func (h *stHarness) exec(line string) string {
 			return want
 		}, opts...)
 		if err != want {
+			ok = false
+		}
+		// … and the other call, which may still be in flight, keeps its own messages: its picker callback reads them
+		if outer.reqMsg != interface{}(other) || outer.replyMsg != interface{}(other) {
 			ok = false
 		}
 		if ok {
